@@ -27,6 +27,8 @@ def gen_text(rnd, allow_undef, chunks=1):
         t = rnd.choice(targets)
         if k < 0.16:
             l = pending.pop(0) if pending else rnd.choice(LABELS)
+            if rnd.random() < 0.04:
+                l = rnd.choice(list(MODULE_SYMS))      # a name the module already has: MultipleDefinitionsError
             if l not in defined or rnd.random() < 0.03:
                 defined.append(l)
                 lines.append(f"{l}:")
